@@ -27,7 +27,23 @@ def do_case(ctx, inp):
              tags=tags_of(t) | ({"interp-names-compound"} if any(k not in lv for k in I) else set())
                   | ({"interp-range"} if any(lo != hi for lo, hi in I.values()) else set())
                   | ({"interp-outside-declared"} if any(k in lv and (I[k][0] < lv[k][0] or I[k][1] > lv[k][1]) for k in I) else set()))
-    res = copy.deepcopy(o).evaluate_propositions(render_interp(ctx.rng, I))
+    if inp.get("copy_asked_first"):
+        # the model has handed out a partially assumed copy of itself before, and that copy has been asked about one of ITS
+        # sub-propositions: what happens to the copy is the copy's affair — the bounds the model reports afterwards are still
+        # those of the model
+        leaf_part = {k: v for k, v in I.items() if k in lv and v[0] == v[1]}
+        r_ = o.assume(render_interp(ctx.rng, leaf_part))
+        if not is_var(r_):
+            cids = [x for x in compound_ids(snap(r_)) if x != t["id"]]
+            if cids:
+                try:
+                    r_.evaluate({ctx.rng.choice(cids): ctx.rng.choice([0, 1])})
+                except Exception:
+                    pass
+                ctx.tags["assumed-copy-asked-about-its-own-sub-proposition-first"] += 1
+        res = copy.deepcopy(o).evaluate_propositions(render_interp(ctx.rng, I))
+    else:
+        res = copy.deepcopy(o).evaluate_propositions(render_interp(ctx.rng, I))
     got = sorted((k, int(b.lower), int(b.upper)) for k, b in res.items())
     ctx.op({"op": "evalprops", "t": t, "I": interp_json(I)}, {"res": [list(x) for x in got]})
     # oracle 1: every completion lies within the returned bounds
@@ -107,7 +123,8 @@ def run(ctx):
             ctx.tags["huge-threshold-stream"] += 1
         for _ in range(3):
             I = gen_interp(ctx.rng, t, total=False, in_bounds=ctx.rng.random() < 0.8)
-            do_case(ctx, {"ast": a, "I": {k: list(v) for k, v in I.items()}})
+            extra_ = {"copy_asked_first": True} if ctx.rng.random() < 0.15 else {}
+            do_case(ctx, {"ast": a, "I": {k: list(v) for k, v in I.items()}, **extra_})
         if ctx.rng.random() < 0.3:
             # a leaf DECLARED constant and interpreted otherwise
             v = constant_leaf_variant(ctx.rng, a, t)
